@@ -3,7 +3,7 @@
     written from the XML Schema recommendation), C06/Model.v (Spyne's schema emitter, XML
     writer and soft validation) and the tables generated from the emitter's source
     (Gen/XsdEmit.v, Gen/NumTypes.v). *)
-From SpyneV Require Import C06.Spec C06.Closure C06.LeafProofs C06.StructProofs C06.ClosureProofs C06.DecProofs C06.Main.
+From SpyneV Require Import C06.Spec C06.Docs C06.Closure C06.LeafProofs C06.StructProofs C06.AgreeProofs C06.ClosureProofs C06.DecProofs C06.Main.
 
 (** Every document Spyne writes for a value that satisfies the declared constraints is valid
     against the schema Spyne publishes — for every well-formed universe (multi-namespace,
@@ -73,6 +73,45 @@ Theorem C06_nil_required_refuted :
      | _ => true
      end = false.
 Proof. vm_compute. repeat split. Qed.
+
+(** For documents that use only declared members in declared order, schema validation and soft
+    validation reach the same accept / reject verdict — for every well-formed universe, every
+    class, every nesting depth, every number of occurrences of every member, every placement of
+    xsi:nil, every attribute present or absent, and leaf contents as in [la_canon] (the text of
+    ANY integer, ANY string, the boolean literals).  [ddoc] excludes only what one of the two
+    validators does not implement: content inside a nilled element, two members of one choice
+    group, an empty element of a member with a default, a nilled class with a required
+    attribute (known finding), xsi attributes other than xsi:nil. *)
+Theorem C06_verdicts_agree :
+  forall (pat : text -> option re) (olex : okind -> text -> option Z) (ord : okind -> text -> out Z)
+         (U : univ) (tns : text),
+    wf_univ U = true -> resolves_b (schema_of U tns) U = true -> patterns_known pat U ->
+    forall n c cl e m,
+      get_klass U c = Some cl ->
+      match e with
+      | XElt ns name atts _ _ => text_eqb ns (k_ns cl) && text_eqb name (k_name cl) && negb (is_nil_att atts)
+      | XOther => false
+      end = true ->
+      ddoc U (la_canon olex) n (DRef c) false None e = true ->
+      (n + length U < m)%nat ->
+      valid_doc pat olex m (schema_of U tns) e = is_ok (soft U ord n (DRef c) true e).
+Proof.
+  intros pat olex ord U tns Hwf Hres. apply (doc_verdicts_agree pat olex ord U (schema_of U tns) Hwf).
+  exact (resolves_b_sound _ _ Hres).
+Qed.
+
+(** the same at every position and for ANY leaf contents on which the leaf validators agree
+    ([LA] with its hypothesis): the structural half of the agreement *)
+Theorem C06_verdicts_agree_structure :
+  forall pat olex ord U S (LA : stype -> bool -> option text -> option text -> bool),
+    wf_univ U = true -> resolves S U ->
+    (forall st nil d txt, In (DLeaf st) (tys_of U) -> wf_stype st = true -> LA st nil d txt = true ->
+       st_elem_ok pat olex st d txt = is_ok (soft_leaf ord st nil txt)) ->
+    forall n t nillable dflt e,
+      ty_known U t -> ddoc U LA n t nillable dflt e = true ->
+      forall m, (n + length U < m)%nat ->
+        valid_elem pat olex m S (type_qn U t) nillable dflt e = is_ok (soft U ord n t nillable e).
+Proof. exact verdicts_agree. Qed.
 
 (** Leaf level, both directions at once: on the text of ANY integer (conformant or not) the
     published simple type of a customised integer class and soft validation reach the same
@@ -159,4 +198,24 @@ Example C06_ex_str_agree :
   /\ soft_leaf (ord_of []) ex_str false (Some [97; 98; 99]) = Ok tt
   /\ st_elem_ok (pat_of []) (olex_of []) ex_str None None = false
   /\ soft_leaf (ord_of []) ex_str false None = VFault.
+Proof. vm_compute. repeat split. Qed.
+
+(** documents of class A of [ex_U] in declared order: a valid one, and one with three q
+    (max_occurs = 2) — both validators accept the first and reject the second *)
+Definition ex_doc (qs : list xnode) (i : text) : xnode :=
+  XElt [117; 114; 110; 58; 116] [65] [([], [105; 100], [55])] None
+    ([ XElt [117; 114; 110; 58; 116] [105] [] (Some i) [] ] ++ qs).
+Definition ex_q (s : text) : xnode := XElt [117; 114; 110; 58; 116] [113] [] (Some s) [].
+Example C06_ex_verdicts :
+  let pat := pat_of [] in let olex := olex_of [] in let ord := ord_of [] in
+  let tns := [117; 114; 110; 58; 116] in
+  let good := ex_doc [ex_q [49]; ex_q [50]] [45; 51] in
+  let many := ex_doc [ex_q [49]; ex_q [50]; ex_q [51]] [45; 51] in
+  let range := ex_doc [] [54] in
+  ddoc ex_U (la_canon olex) 4 (DRef 0%nat) false None good = true
+  /\ ddoc ex_U (la_canon olex) 4 (DRef 0%nat) false None many = true
+  /\ ddoc ex_U (la_canon olex) 4 (DRef 0%nat) false None range = true
+  /\ valid_doc pat olex 8 (schema_of ex_U tns) good = true /\ soft ex_U ord 4 (DRef 0%nat) true good = Ok tt
+  /\ valid_doc pat olex 8 (schema_of ex_U tns) many = false /\ soft ex_U ord 4 (DRef 0%nat) true many = VFault
+  /\ valid_doc pat olex 8 (schema_of ex_U tns) range = false /\ soft ex_U ord 4 (DRef 0%nat) true range = VFault.
 Proof. vm_compute. repeat split. Qed.
